@@ -29,8 +29,9 @@ def binnify_body(env, p):
     names = [f"c{i}" for i in range(nch)]
     if p.get("names") == "unsorted":
         names = names[::-1]       # the given order is not the lexicographic one: it must be kept
-    lens = [env.int(f"L{i}", 1, maxbins * b) for i in range(nch)]
-    cs = pd.Series(env.array(lens, "int64"), index=names)
+    lens = [env.int(f"L{i}", 1, min(maxbins * b, p.get("lmax", maxbins * b))) for i in range(nch)]
+    # dtype int32 is what Cooler.chromsizes hands out: re-binning a cooler's own chromosome table must not depend on that width
+    cs = pd.Series(env.array(lens, p.get("dtype", "int64")), index=names)
     out = util.binnify(cs, b)
     chrom = out["chrom"]
     codes = _col(chrom.cat.codes) if hasattr(chrom, "cat") else None
@@ -63,6 +64,11 @@ def _binnify_cases(tier):
         for nch in ((1, 2) if tier == "quick" else (1, 2, 3, 4)):
             out.append(dict(b=b, nchroms=nch, maxbins=3 if tier == "quick" else (8 if nch < 3 else 4)))
     out.append(dict(b=2, nchroms=3, maxbins=2, names="unsorted"))
+    # lengths in a narrow integer type, chromosomes close to the limit of that type (the last bin's nominal end exceeds it)
+    out.append(dict(b=10**9, nchroms=1, maxbins=3, dtype="int32", lmax=2**31 - 1))
+    out.append(dict(b=2**30, nchroms=2, maxbins=2, dtype="int32", lmax=2**31 - 1))
+    out.append(dict(b=20000, nchroms=1, maxbins=2, dtype="int16", lmax=2**15 - 1))
+    out.append(dict(b=2**31, nchroms=1, maxbins=2, dtype="uint32", lmax=2**32 - 1))
     return out
 
 
